@@ -129,6 +129,22 @@ def run(ctx):
                         viol(f"{window}/row-local", f"{window}.sigma on a vector differs from element-by-element / permuted evaluation")
                     if sname in ("EH", "BBKS", "BondEfs", "EH_NoBAO") and np.any(np.diff(s0) > 0):
                         viol(f"{window}/not-decreasing", f"{window}.sigma increases with R on the CDM-like spectrum {sname}")
+                # the sharp-k filters too: the same instance after its table was replaced follows the current table (sqrt(a) scaling), and a second
+                # call with the same radii returns the same values
+                for wname_ in ("SharpK", "SharpKEllipsoid"):
+                    for ord_ in (0, 1):
+                        fs_ = getattr(filters, wname_)(k.copy(), P.copy())
+                        try:
+                            sb_ = np.asarray(fs_.sigma(radii, ord_), float).copy()
+                            sb2_ = np.asarray(fs_.sigma(radii, ord_), float)
+                            fs_.power = 4.0 * P
+                            sa_ = np.asarray(fs_.sigma(radii, ord_), float)
+                        except Exception:
+                            continue
+                        nref += 1
+                        if not (np.allclose(sb2_, sb_, rtol=1e-12) and np.allclose(sa_, 2.0 * sb_, rtol=2e-3)):
+                            viol(f"{wname_}/stale-table-after-assignment", f"{wname_}: after `filt.power = 4 P` on an instance already used with the same radii, sigma(order={ord_}) is {float(np.max(np.abs(sa_ / (2 * sb_) - 1))):.3g} away from 2 x the previous value",
+                                 {"window": wname_, "spectrum": sname, "order": ord_})
                 # sharp-k: exact integral of the cubic spline of P up to 1/R, scaling, two instances with different tables
                 for cls, cpar in ((filters.SharpK, {"c": 1.0}),):
                     f = cls(k, P, **cpar)
